@@ -25,6 +25,8 @@ class SymBase:
         self.inputs: dict[str, Any] = {}      # name -> value (symbolic or concrete)
         self.reached = 0                      # assertion evaluations on this path
         self.notes: dict[str, Any] = {}
+        self.soft_signatures: set = set()     # signatures (known findings) that do not end the path
+        self.soft: list = []                  # Violations of soft signatures seen on this path
 
     # -- bookkeeping -------------------------------------------------------------------------
     def _register(self, name: str, value):
@@ -44,6 +46,11 @@ class SymBase:
         """Evaluate one assertion of the property; `cond` may be symbolic (forks)."""
         self.reached += 1
         if not cond:
+            if signature in self.soft_signatures:
+                # a recorded known finding: remember it, keep exploring this path for *other* violations
+                if not any(v.signature == signature for v in self.soft):
+                    self.soft.append(Violation(signature, detail, data))
+                return
             raise Violation(signature, detail, data)
 
     def concrete(self):
